@@ -1,3 +1,4 @@
+import math
 import struct
 from dataclasses import dataclass
 
@@ -76,9 +77,12 @@ class LowerArithConstant(RewritePattern):
                 s32_min = signed_lower_bound(32)
                 s32_max = signed_upper_bound(32)
                 # If the value is an integer that fits in s32, then convert.
-                if (val_data := op_val.value.data).is_integer() and s32_min <= (
-                    int_val := int(val_data)
-                ) < s32_max:
+                # (-0.0 is integral too, but fcvt.d.w of 0 is +0.0: it takes the bit-exact path)
+                if (
+                    (val_data := op_val.value.data).is_integer()
+                    and s32_min <= (int_val := int(val_data)) < s32_max
+                    and (int_val != 0 or math.copysign(1.0, val_data) > 0)
+                ):
                     rewriter.replace(
                         op,
                         [
